@@ -27,7 +27,7 @@ fn setup(fail_store: u16, key: MockKey, extra_verify: bool) -> (DecryptBackend<M
 /// of the plaintext and whose name is the hash of those stored bytes; if the extra verification cannot
 /// decrypt what was just encrypted, nothing is written.
 #[kani::proof]
-#[kani::unwind(6)]
+#[kani::unwind(34)]
 #[kani::stub(crate::crypto::hasher::hash, hash_stub)]
 #[kani::stub(crate::error::RusticError::new, es::new_stub)]
 fn c04_hash_write_full_stores_ciphertext_under_its_hash() {
